@@ -12,7 +12,7 @@ trap cleanup EXIT
 git -C /repo worktree add -q --detach "$S/repo" HEAD || exit 2
 ( cd "$S/repo" && git apply "$PATCH" ) || { echo "patch does not apply"; exit 2; }
 mkdir -p "$S/verif"; cp /verif/known_findings.json "$S/verif/"
-cp -r /verif/sim "$S/sim"
+cp -r "${SIM_SRC:-/verif/sim}" "$S/sim"
 sed -i "s#=> /repo#=> $S/repo#" "$S/sim/go.mod"
 if ! ( cd "$S/sim" && go build -tags verif -o "$S/verifsim" ./cmd/verifsim ) 2>"$S/build.log"; then cat "$S/build.log"; echo "BUILD FAILED"; exit 2; fi
 for id in "$@"; do
